@@ -53,7 +53,7 @@ def gen_plan(rng, maxlen):
             continue
         slot = rng.choice(sorted(states))
         kind = states[slot]
-        if r < 0.24:
+        if r < 0.24 and (not modules or rng.random() < 0.5):
             k = rng.choice(["binary", "purif", "purif"])
             nv, nh, na = arch("dens" if k == "purif" else "pos")
             ms = rng.randrange(3)
@@ -61,7 +61,7 @@ def gen_plan(rng, maxlen):
             plan.append({"t": "mkModule", "mslot": ms, "k": k, "nv": nv, "nh": nh, "na": na})
             if rng.random() < 0.7:
                 plan.append({"t": "writeModule", "mslot": ms})
-        elif r < 0.40 and modules:
+        elif r < 0.42 and modules:
             ms = rng.choice(sorted(modules))
             k = modules[ms]
             kind2 = rng.choice(["pos", "cplx"]) if k == "binary" else "dens"
@@ -357,7 +357,7 @@ def fixed_cases():
 
 def gen_cases(ctx, thorough, scale=1):
     maxlen = 30 if thorough else 12
-    nh, ng, no = ((70, 40, 200) if thorough else (16, 8, 40))
+    nh, ng, no = ((250, 60, 300) if thorough else (40, 10, 50))
     for _ in range(nh * scale):
         yield {"type": "history", "plan": gen_plan(ctx.rng, maxlen), "tseed": ctx.rng.randrange(1, 2 ** 31)}
     for _ in range(ng * scale):
